@@ -31,13 +31,17 @@ CONSTANTS Servers,    \* listener hosts, e.g. {"A"} or {"A", "B"}
           Shapes,     \* <<payload length, trailer class>> pairs the environment uses
           Vias,       \* <<transport, path kind>> pairs the environment uses
           MaxInject,  \* number of datagrams the environment sends
-          Spoof       \* TRUE: the environment may forge another server's source address
+          Spoof,      \* TRUE: the environment may forge another server's source address
+          RestoreAtTop \* TRUE (the code): every loop iteration starts with buf = buf[:cap(buf)];
+                      \* FALSE: the variant that restores the buffer only after a served request
+                      \* (kept to show that HistoryIndependence is not vacuous)
 
 (***************************************************************************)
 (* 1. Payloads                                                             *)
 (***************************************************************************)
 PacketLen == 48                 \* ntp.PacketLen
-BufLenIP  == 2048               \* runIPServer: buf := make([]byte, 2048)
+BufCapIP    == 2048             \* runIPServer: buf := make([]byte, 2048)
+BufCapSCION == 9188             \* runSCIONServer: make([]byte, scion.MTU), MTU = 9216 - 20 - 8
 ExtMin    == 28                 \* nts.DecodePacket: for len(b)-pos >= 28 ...
 UidFieldLen    == 36            \* 4 + 32-byte unique identifier
 CookieFieldLen == 128           \* 4 + 124-byte encrypted cookie (ntske cookies.go)
@@ -51,27 +55,37 @@ LVM(li, vn, mode) == 64 * li + 8 * vn + mode
 \* What follows the 48-byte header, as the outcome of every decision the
 \* server takes on it.  Bytes that no decision depends on are not modelled.
 \*   walk   the extension-field loop of nts.DecodePacket is entered (>= 28 bytes)
-\*   uid    a unique-identifier field is found before the authenticator
+\*   ext    "ok" | "lt4": the first field the walk meets has Length < 4
+\*   uid    unique-identifier field before the authenticator: "none" | "ok" |
+\*          "short" (Length < 4 + 32)
 \*   auth   "none" no authenticator field | "ok" seals header+fields under the
 \*          cookie's C2S key | "badmac" tag altered | "wrongkey" sealed under a key
-\*          that is not the cookie's C2S key | "adtamper" a header byte changed after sealing
+\*          that is not the cookie's C2S key | "adtamper" a header byte changed after
+\*          sealing | "badnonce" nonce length field # 16
 \*   cookie first cookie field: "none" | "ok" (decodes, key id known, decrypts) |
-\*          "unkkey" (key id not held by the provider) | "badct" (ciphertext altered)
+\*          "unkkey" (key id not held by the provider) | "badct" (ciphertext altered) |
+\*          "undecodable" (4 bytes that are no id/nonce/ciphertext TLV list)
 \*   nck    number of cookie + cookie placeholder fields (the reply carries as many cookies)
 \*   after  bytes follow the authenticator field (never looked at by the code)
-NoTr == [walk |-> FALSE, uid |-> FALSE, auth |-> "none", cookie |-> "none", nck |-> 0, after |-> FALSE]
-Nts(a, c) == [walk |-> TRUE, uid |-> TRUE, auth |-> a, cookie |-> c, nck |-> 1, after |-> FALSE]
+NoTr == [walk |-> FALSE, ext |-> "ok", uid |-> "none", auth |-> "none", cookie |-> "none", nck |-> 0, after |-> FALSE]
+Nts(a, c) == [walk |-> TRUE, ext |-> "ok", uid |-> "ok", auth |-> a, cookie |-> c, nck |-> 1, after |-> FALSE]
 
 TrailerNames == {"none", "short", "garbage", "uid_only", "no_uid", "no_cookie",
                  "nts_ok", "nts_ok_ph", "nts_badmac", "nts_wrongkey", "nts_adtamper",
-                 "nts_unkkey", "nts_badcookie", "nts_after", "nts_resp"}
+                 "nts_unkkey", "nts_badcookie", "nts_after", "nts_resp",
+                 \* rejected cleanly since the decoder fixes (before: endless loop / panic)
+                 "ext_lt4", "uid_short", "cookie_short", "nonce_bad"}
 
 Trailer(c) ==
   CASE c = "none"          -> NoTr
     [] c = "short"         -> NoTr                                 \* 1..27 bytes, any content
     [] c = "garbage"       -> [NoTr EXCEPT !.walk = TRUE]          \* fields of unknown type only
-    [] c = "uid_only"      -> [NoTr EXCEPT !.walk = TRUE, !.uid = TRUE]
-    [] c = "no_uid"        -> [Nts("ok", "ok") EXCEPT !.uid = FALSE]
+    [] c = "uid_only"      -> [NoTr EXCEPT !.walk = TRUE, !.uid = "ok"]
+    [] c = "no_uid"        -> [Nts("ok", "ok") EXCEPT !.uid = "none"]
+    [] c = "ext_lt4"       -> [NoTr EXCEPT !.walk = TRUE, !.ext = "lt4"]
+    [] c = "uid_short"     -> [NoTr EXCEPT !.walk = TRUE, !.uid = "short"]
+    [] c = "cookie_short"  -> Nts("ok", "undecodable")
+    [] c = "nonce_bad"     -> Nts("badnonce", "ok")
     [] c = "no_cookie"     -> [Nts("ok", "none") EXCEPT !.nck = 0]
     [] c = "nts_ok"        -> Nts("ok", "ok")
     [] c = "nts_ok_ph"     -> [Nts("ok", "ok") EXCEPT !.nck = 3]   \* one cookie, two placeholders
@@ -90,7 +104,10 @@ Trailer(c) ==
 \* covered by the authenticator)
 NatLen(c) ==
   LET t == Trailer(c)
-  IN PacketLen + (IF t.uid THEN UidFieldLen ELSE 0) + CookieFieldLen * t.nck
+  IN PacketLen + (IF t.ext = "lt4" THEN ExtMin ELSE 0)
+     + (CASE t.uid = "ok" -> UidFieldLen [] t.uid = "short" -> ExtMin [] OTHER -> 0)
+     + (IF t.nck = 0 THEN 0
+        ELSE (IF t.cookie = "undecodable" THEN 8 ELSE CookieFieldLen) + CookieFieldLen * (t.nck - 1))
      + (IF t.auth # "none" THEN AuthFieldLen ELSE 0) + (IF t.after THEN ExtMin ELSE 0)
 
 ShapeOK(len, c) ==
@@ -145,25 +162,40 @@ Reverse(p) ==
                            Seg(~p.segs[i].cons, p.segs[i].sid, RevSeq(p.segs[i].hops))])]
 
 \* SCION common/address header + L4 ports, as far as the listener uses them
-NoSc == [sia |-> "-", sh |-> "-", sp |-> "-", dia |-> "-", dh |-> "-", dp |-> "-", path |-> EmptyPath]
-Sc(sh, sp, dh, dp, path) ==
-  [sia |-> IAof(sh), sh |-> sh, sp |-> sp, dia |-> IAof(dh), dh |-> dh, dp |-> dp, path |-> path]
-\* scionLayer.DstIA, SrcIA = SrcIA, DstIA; address types and raw addresses
-\* likewise; Path.Reverse(); udpLayer.DstPort, SrcPort = SrcPort, DstPort
+\* a SCION host address is (type, bytes): st/dt are the address types ("v4" =
+\* T4Ip, "v6" = T16Ip), sh/dh name the host the bytes belong to.  The types of
+\* source and destination are independent of each other and of the underlay.
+Fams == {"44", "66", "46", "64"}        \* <source type><destination type>
+AType(c) == IF c = "4" THEN "v4" ELSE "v6"
+ALen(t)  == IF t = "v4" THEN 4 ELSE 16
+NoSc == [sia |-> "-", sh |-> "-", st |-> "-", sp |-> "-", dia |-> "-", dh |-> "-", dt |-> "-", dp |-> "-", path |-> EmptyPath]
+Sc(sh, sp, dh, dp, path, fam) ==
+  [sia |-> IAof(sh), sh |-> sh, st |-> AType(SubSeq(fam, 1, 1)), sp |-> sp,
+   dia |-> IAof(dh), dh |-> dh, dt |-> AType(SubSeq(fam, 2, 2)), dp |-> dp, path |-> path]
+\* scionLayer.DstIA, SrcIA = SrcIA, DstIA; DstAddrType, SrcAddrType likewise;
+\* RawDstAddr, RawSrcAddr likewise; Path.Reverse(); udpLayer.DstPort, SrcPort = SrcPort, DstPort
 SwapSc(sc) ==
-  [sia |-> sc.dia, sh |-> sc.dh, sp |-> sc.dp, dia |-> sc.sia, dh |-> sc.sh, dp |-> sc.sp,
-   path |-> Reverse(sc.path)]
+  [sia |-> sc.dia, sh |-> sc.dh, st |-> sc.dt, sp |-> sc.dp,
+   dia |-> sc.sia, dh |-> sc.sh, dt |-> sc.st, dp |-> sc.sp, path |-> Reverse(sc.path)]
+\* SCION header length: common 12 + IAs 16 + host addresses + path
+PathLen(p) == IF p.kind = "empty" THEN 0 ELSE 4 + 8 * Len(p.segs) + 12 * SumLen(p.segs)
 
 \* a datagram on the wire: transport, underlay source and destination, SCION
 \* header (NoSc over IP), NTP payload
 Dgram(tp, src, dst, sc, pl) == [tp |-> tp, src |-> src, dst |-> dst, sc |-> sc, pl |-> pl]
+\* size of the UDP datagram the listener's socket receives
+WireLen(d) ==
+  IF d.tp = "ip" THEN d.pl.len
+  ELSE 12 + 16 + ALen(d.sc.st) + ALen(d.sc.dt) + PathLen(d.sc.path) + 8 + d.pl.len
+BufCap(tp) == IF tp = "ip" THEN BufCapIP ELSE BufCapSCION
 
 (***************************************************************************)
 (* 3. The pipeline, in the order of the code.  Each operator is TRUE when  *)
 (*    the stage lets the datagram pass.                                    *)
 (***************************************************************************)
-\* ReadMsgUDPAddrPort: flags != 0 (MSG_TRUNC) => continue
-StRead(d) == d.tp = "scion" \/ d.pl.len <= BufLenIP
+\* ReadMsgUDPAddrPort(buf, oob) into a buffer slice of `avail` bytes:
+\* a longer datagram is cut, flags = MSG_TRUNC, `flags != 0 => continue`
+StRead(d, avail) == WireLen(d) <= avail
 \* SCION only: layers decode to SCION/UDP, udpLayer.Length fits, the L4
 \* destination port is the listener's own port (otherwise: forward or drop)
 StScion(s, d) == d.tp = "ip" \/ d.sc.dp = ListenEP(s, "scion").p
@@ -174,9 +206,13 @@ StNtpDecode(d) == d.pl.len >= PacketLen
 NtsOutcome(pl) ==
   LET t == Trailer(pl.tr)
   IN IF pl.len <= PacketLen THEN "pass"                          \* block not entered
-     ELSE IF ~(t.walk /\ t.uid) THEN "nts.DecodePacket:errNoUniqueID"
+     ELSE IF ~t.walk THEN "nts.DecodePacket:errNoUniqueID"
+     ELSE IF t.ext = "lt4" THEN "nts.DecodePacket:errUnexpectedExtHdrLength"
+     ELSE IF t.uid = "short" THEN "nts.DecodePacket:errShortUniqueID"
+     ELSE IF t.uid = "none" THEN "nts.DecodePacket:errNoUniqueID"
      ELSE IF t.auth = "none" THEN "nts.DecodePacket:errNoAuthenticator"
      ELSE IF t.cookie = "none" THEN "FirstCookie"
+     ELSE IF t.cookie = "undecodable" THEN "EncryptedServerCookie.Decode"
      ELSE IF t.cookie = "unkkey" THEN "provider.Get"
      ELSE IF t.cookie = "badct" THEN "EncryptedServerCookie.Decrypt"
      ELSE IF t.auth # "ok" THEN "nts.ProcessRequest"
@@ -190,13 +226,16 @@ ValidateRequest(b) ==
      /\ ~((vn = 1 /\ mode # 0) \/ (vn # 1 /\ mode # 3))
 StValidate(d) == ValidateRequest(d.pl.b0)
 
-DropStage(s, d) ==
-  IF ~StRead(d) THEN "read"
+\* with `avail` bytes of receive buffer
+DropStageB(s, d, avail) ==
+  IF ~StRead(d, avail) THEN "read"
   ELSE IF ~StScion(s, d) THEN "scion"
   ELSE IF ~StNtpDecode(d) THEN "ntp.DecodePacket"
   ELSE IF ~StNts(d) THEN NtsOutcome(d.pl)
   ELSE IF ~StValidate(d) THEN "ntp.ValidateRequest"
   ELSE "none"
+\* with the whole buffer (what the code's loop guarantees at every iteration)
+DropStage(s, d) == DropStageB(s, d, BufCap(d.tp))
 Accepts(s, d) == DropStage(s, d) = "none"
 
 (***************************************************************************)
@@ -215,7 +254,9 @@ ReplyPl(pl) == [b0 |-> ReplyB0, len |-> RespLen(pl),
 \* listener's socket to the underlay source of the request
 Reply(s, d) ==
   Dgram(d.tp, ListenEP(s, d.tp), d.src, IF d.tp = "scion" THEN SwapSc(d.sc) ELSE NoSc, ReplyPl(d.pl))
-Replies(s, d) == IF Accepts(s, d) THEN <<Reply(s, d)>> ELSE << >>
+RepliesB(s, d, avail) == IF DropStageB(s, d, avail) = "none" THEN <<Reply(s, d)>> ELSE << >>
+\* the reply decision as a function of the datagram alone
+Replies(s, d) == RepliesB(s, d, BufCap(d.tp))
 
 (***************************************************************************)
 (* 5. System: an environment that composes datagrams field by field (one   *)
@@ -226,25 +267,30 @@ VARIABLES draft,   \* the datagram being composed by the environment
           net,     \* datagrams in flight (sequence used as a bag)
           hist,    \* observation: one event [srv, d, out] per loop iteration
           nsent,   \* datagrams ever put on the network (by anyone)
-          ninj     \* datagrams the environment has sent
-vars == <<draft, net, hist, nsent, ninj>>
+          ninj,    \* datagrams the environment has sent
+          blen     \* [listener, transport] -> len(buf) of the receive loop when it
+                   \* comes back to the top (one socket per listener and transport;
+                   \* the 8 SO_REUSEPORT sockets are independent copies of this)
+vars == <<draft, net, hist, nsent, ninj, blen>>
 
-Idle == [stage |-> "idle", b0 |-> 0, len |-> 0, tr |-> "none", tp |-> "ip", pk |-> "empty", from |-> Client, to |-> Client]
+Idle == [stage |-> "idle", b0 |-> 0, len |-> 0, tr |-> "none", tp |-> "ip", pk |-> "empty", fam |-> "44",
+         from |-> Client, to |-> Client]
 
-Init == draft = Idle /\ net = << >> /\ hist = << >> /\ nsent = 0 /\ ninj = 0
+Init == /\ draft = Idle /\ net = << >> /\ hist = << >> /\ nsent = 0 /\ ninj = 0
+        /\ blen = [x \in Servers \X {"ip", "scion"} |-> BufCap(x[2])]
 
 ChooseB0 ==
   /\ draft.stage = "idle" /\ ninj < MaxInject
   /\ \E b \in B0s : draft' = [Idle EXCEPT !.stage = "b0", !.b0 = b]
-  /\ UNCHANGED <<net, hist, nsent, ninj>>
+  /\ UNCHANGED <<net, hist, nsent, ninj, blen>>
 ChooseShape ==
   /\ draft.stage = "b0"
   /\ \E sh \in Shapes : draft' = [draft EXCEPT !.stage = "shape", !.len = sh[1], !.tr = sh[2]]
-  /\ UNCHANGED <<net, hist, nsent, ninj>>
+  /\ UNCHANGED <<net, hist, nsent, ninj, blen>>
 ChooseVia ==
   /\ draft.stage = "shape"
-  /\ \E v \in Vias : draft' = [draft EXCEPT !.stage = "via", !.tp = v[1], !.pk = v[2]]
-  /\ UNCHANGED <<net, hist, nsent, ninj>>
+  /\ \E v \in Vias : draft' = [draft EXCEPT !.stage = "via", !.tp = v[1], !.pk = v[2], !.fam = v[3]]
+  /\ UNCHANGED <<net, hist, nsent, ninj, blen>>
 \* destination: some listener; source: the client's own address or, when
 \* spoofing, the address of another listener
 ChooseAddr ==
@@ -252,13 +298,13 @@ ChooseAddr ==
   /\ \E t \in Servers :
        \E f \in {Client} \cup (IF Spoof THEN Servers \ {t} ELSE {}) :
           draft' = [draft EXCEPT !.stage = "addr", !.from = f, !.to = t]
-  /\ UNCHANGED <<net, hist, nsent, ninj>>
+  /\ UNCHANGED <<net, hist, nsent, ninj, blen>>
 
 DraftDgram(x) ==
   LET srcEP == IF x.from = Client THEN ClientEP ELSE ListenEP(x.from, x.tp)
       dstEP == ListenEP(x.to, x.tp)
   IN Dgram(x.tp, srcEP, dstEP,
-           IF x.tp = "scion" THEN Sc(x.from, srcEP.p, x.to, dstEP.p, PathOf(x.pk)) ELSE NoSc,
+           IF x.tp = "scion" THEN Sc(x.from, srcEP.p, x.to, dstEP.p, PathOf(x.pk), x.fam) ELSE NoSc,
            Payload(x.b0, x.len, x.tr))
 
 Inject ==
@@ -266,18 +312,31 @@ Inject ==
   /\ net' = Append(net, DraftDgram(draft))
   /\ draft' = Idle
   /\ nsent' = nsent + 1 /\ ninj' = ninj + 1
-  /\ UNCHANGED hist
+  /\ UNCHANGED <<hist, blen>>
 
 RemoveAt(q, i) == SubSeq(q, 1, i - 1) \o SubSeq(q, i + 1, Len(q))
 
-\* one iteration of a receive loop of listener s
+\* one iteration of a receive loop of listener s:
+\*   buf = buf[:cap(buf)]                 (RestoreAtTop)
+\*   n, _, flags, src := ReadMsgUDPAddrPort(buf, oob); flags != 0 => continue
+\*   buf = buf[:n]; ... stages ...; IP: EncodePacket(&buf, ..) re-slices buf to the reply
+\*   write
 Handle(s) ==
   \E i \in DOMAIN net :
     /\ net[i].dst = ListenEP(s, net[i].tp)
-    /\ LET d == net[i] out == Replies(s, d)
+    /\ LET d     == net[i]
+           cap   == BufCap(d.tp)
+           avail == IF RestoreAtTop THEN cap ELSE blen[<<s, d.tp>>]
+           out   == RepliesB(s, d, avail)
+           n     == IF WireLen(d) <= avail THEN WireLen(d) ELSE avail
+           left  == IF out # << >> /\ ~RestoreAtTop THEN cap          \* the variant restores here
+                    ELSE IF ~StRead(d, avail) THEN avail               \* `continue` before buf = buf[:n]
+                    ELSE IF out # << >> /\ d.tp = "ip" THEN out[1].pl.len
+                    ELSE n
        IN /\ net' = RemoveAt(net, i) \o out
           /\ hist' = Append(hist, [srv |-> s, d |-> d, out |-> out])
           /\ nsent' = nsent + Len(out)
+          /\ blen' = [blen EXCEPT ![<<s, d.tp>>] = left]
     /\ UNCHANGED <<draft, ninj>>
 
 Next == ChooseB0 \/ ChooseShape \/ ChooseVia \/ ChooseAddr \/ Inject \/ \E s \in Servers : Handle(s)
@@ -294,7 +353,7 @@ ValidFirst(b) ==
   /\ ((VN(b) \in 2 .. 4 /\ Mode(b) = 3) \/ (VN(b) = 1 /\ Mode(b) = 0))
 \* "a valid NTS request": identified, carrying a cookie this server issued under
 \* a key it still holds, authenticated under that cookie's client-to-server key
-ValidNts(t) == t.uid /\ t.cookie = "ok" /\ t.auth = "ok"
+ValidNts(t) == t.walk /\ t.ext = "ok" /\ t.uid = "ok" /\ t.cookie = "ok" /\ t.auth = "ok"
 \* "a well-formed client request"
 Valid(pl) ==
   /\ pl.len >= PacketLen
@@ -314,8 +373,8 @@ ToSenderEv(e) ==
     IN /\ r.dst = e.d.src
        /\ e.d.tp = "scion" =>
             /\ r.sc.path = Reverse(e.d.sc.path)
-            /\ r.sc.dia = e.d.sc.sia /\ r.sc.dh = e.d.sc.sh /\ r.sc.dp = e.d.sc.sp
-            /\ r.sc.sia = e.d.sc.dia /\ r.sc.sh = e.d.sc.dh /\ r.sc.sp = e.d.sc.dp
+            /\ r.sc.dia = e.d.sc.sia /\ r.sc.dt = e.d.sc.st /\ r.sc.dh = e.d.sc.sh /\ r.sc.dp = e.d.sc.sp
+            /\ r.sc.sia = e.d.sc.dia /\ r.sc.st = e.d.sc.dt /\ r.sc.sh = e.d.sc.dh /\ r.sc.sp = e.d.sc.dp
 \* "every reply is a version-4, server-mode, stratum-1 packet"
 ReplyHeaderEv(e) ==
   \A i \in DOMAIN e.out :
@@ -331,6 +390,14 @@ ToSender           == \A k \in DOMAIN hist : ToSenderEv(hist[k])
 ReplyHeader        == \A k \in DOMAIN hist : ReplyHeaderEv(hist[k])
 NeverAnswersReply  == \A k \in DOMAIN hist : NeverAnswersReplyEv(hist[k])
 
+\* History independence: what a listener does with a datagram is a function of
+\* that datagram alone - in particular a datagram it dropped (or served) does
+\* not influence the handling of the next one.  (Together with ReplyIffValid on
+\* histories of several datagrams: a valid request is answered whatever the
+\* listener has seen before.)
+HistoryIndependence ==
+  \A j, k \in DOMAIN hist :
+    (hist[j].srv = hist[k].srv /\ hist[j].d = hist[k].d) => Len(hist[j].out) = Len(hist[k].out)
 \* Reflection lemma, over the complete first-byte space: whatever valid request
 \* triggered it, the first byte of the reply is not the first byte of a valid request.
 Reflection == \A b \in 0 .. 255 : ValidFirst(b) => ~ValidFirst(ReplyB0)
